@@ -1150,10 +1150,25 @@ pub fn c07_profiles(quick: bool) -> Vec<(Profile, u64)> {
     let cfgs = if quick { vec![CFG0] } else { vec![CFG0, CFG_CACHE] };
     let depth = if quick { 3 } else { 5 };
     let ff = f.clone();
+    let mut seeds = txn_seeds(&cfgs, true);
+    // two ephemeral savepoints already alive (A older than B), with commits after each
+    for cfg in &cfgs {
+        seeds.push(Seed {
+            name: format!("two-live-esaves/p{}c{}", cfg.page_size, cfg.cache),
+            cfg: *cfg,
+            setup: c01_setup(false, false, false),
+            pre: vec![
+                txn(CommitMode::OnePhase, vec![Op::ESave { slot: 0 }]),
+                txn(CommitMode::OnePhase, data_body('S', 80)),
+                txn(CommitMode::OnePhase, vec![Op::ESave { slot: 1 }]),
+                txn(CommitMode::NonDurable, data_body('D', 81)),
+            ],
+        });
+    }
     vec![(
         Profile {
             name: format!("savepoints/d{depth}"),
-            seeds: txn_seeds(&cfgs, true),
+            seeds,
             depth,
             alphabet: Box::new(move |it: &Interp, d, _b| txn_alphabet(it, d, &ff)),
             finish: FINISH_TXN,
@@ -1210,6 +1225,20 @@ pub fn c02_profiles(quick: bool) -> Vec<(Profile, u64)> {
     )]
 }
 
+/// a multimap with two keys whose value sets live in their own subtrees (allocated late, i.e. at
+/// high page numbers when called after a big fill) and one inline key
+pub fn mm_subtree_txn() -> Op {
+    let mut b = vec![Op::Open { slot: 0, name: "m".into(), spec: MM_SPEC }];
+    for i in 0..300u64 {
+        b.push(Op::MInsert { slot: 0, k: Val::U(5), v: Val::U(i) });
+    }
+    for i in 0..60u64 {
+        b.push(Op::MInsert { slot: 0, k: Val::U(6), v: Val::U(i * 3) });
+    }
+    b.push(Op::MInsert { slot: 0, k: Val::U(7), v: Val::U(1) });
+    txn(CommitMode::OnePhase, b)
+}
+
 pub fn c13_profiles(quick: bool) -> Vec<(Profile, u64)> {
     let f = TxnFlavor {
         modes: vec![CommitMode::OnePhase, CommitMode::NonDurable],
@@ -1232,11 +1261,15 @@ pub fn c13_profiles(quick: bool) -> Vec<(Profile, u64)> {
     for cfg in &cfgs {
         let mut s = c01_setup(true, false, false);
         s.push(txn(CommitMode::OnePhase, data_body('B', 60)));
+        s.push(mm_subtree_txn());
         s.push(txn(CommitMode::OnePhase, data_body('F', 61)));
         s.push(txn(CommitMode::OnePhase, data_body('B', 62)));
         seeds.push(Seed { name: format!("fragmented/p{}c{}r{:?}", cfg.page_size, cfg.cache, cfg.region_size), cfg: *cfg, setup: s.clone(), pre: vec![] });
         s.push(txn(CommitMode::NonDurable, data_body('S', 63)));
         seeds.push(Seed { name: format!("fragmented+pending/p{}c{}r{:?}", cfg.page_size, cfg.cache, cfg.region_size), cfg: *cfg, setup: s, pre: vec![] });
+        let mut s2 = mm_above_hole_setup();
+        s2.extend(c01_setup(false, false, false));
+        seeds.push(Seed { name: format!("mm-above-hole/p{}c{}r{:?}", cfg.page_size, cfg.cache, cfg.region_size), cfg: *cfg, setup: s2, pre: vec![] });
     }
     vec![(
         Profile {
@@ -1307,6 +1340,8 @@ pub fn c05_alphabet(it: &Interp, d: usize) -> Vec<Op> {
         a.push(Op::Remove { slot: 0, k: Val::U(20) });
         a.push(Op::Retain { slot: 0, pred: Pred::PanicAt(1) });
         a.push(Op::ExtractIf { slot: 0, pred: Pred::PanicAt(2), consume: Consume::All });
+        a.push(Op::ExtractIf { slot: 0, pred: Pred::PanicAt(1), consume: Consume::Alt });
+        a.push(Op::ExtractFromIf { slot: 0, lo: B::In(Val::U(20)), hi: B::Un, pred: Pred::PanicAt(2), consume: Consume::Alt });
         a.push(Op::Close { slot: 0 });
         a.push(Op::RenameSlot { slot: 0, to: "x".into() });
     }
@@ -1486,12 +1521,47 @@ pub fn c07_histories(quick: bool) -> Vec<History> {
     out
 }
 
+/// a file whose highest pages hold a many-key multimap (its own top-level tree spans many pages)
+/// above a hole that is smaller than the multimap: compaction relocates the multimap's pages
+pub fn mm_above_hole_setup() -> Vec<Op> {
+    let filler = tbl(T::U64, T::Bytes);
+    let mmb = mm(T::U64, T::Bytes);
+    let mut a = vec![Op::Open { slot: 0, name: "filler".into(), spec: filler }];
+    for k in 0..40u64 {
+        a.push(Op::Insert { slot: 0, k: Val::U(k), v: Val::B(payload(k, 400)) });
+    }
+    let mut b = vec![Op::Open { slot: 0, name: "mmb".into(), spec: mmb }];
+    for k in 0..220u64 {
+        for i in 0..2u64 {
+            b.push(Op::MInsert { slot: 0, k: Val::U(k), v: mval(T::Bytes, k * 2 + i, 60) });
+        }
+    }
+    vec![
+        txn(CommitMode::OnePhase, a),
+        txn(CommitMode::OnePhase, b),
+        txn(CommitMode::OnePhase, vec![Op::Delete { name: "filler".into(), kind: Kind::Table }]),
+        txn(CommitMode::OnePhase, vec![]),
+        txn(CommitMode::OnePhase, vec![]),
+    ]
+}
+
 pub fn c13_histories(quick: bool) -> Vec<History> {
     let mut out = vec![];
+    for cfg in if quick { vec![CFG_ONE_REGION] } else { vec![CFG_ONE_REGION, CFG0, CFG_ONE_REGION_CACHE] } {
+        out.push(History {
+            name: format!("cmp-mm-above-hole/p{}r{:?}c{}:compact", cfg.page_size, cfg.region_size, cfg.cache),
+            cfg,
+            setup: mm_above_hole_setup(),
+            steps: vec![Op::Compact],
+            close: false,
+            depth2: 0,
+        });
+    }
     let cfgs = if quick { vec![CFG_ONE_REGION] } else { vec![CFG_ONE_REGION, CFG0, CFG_ONE_REGION_CACHE] };
     for cfg in cfgs {
         let mut setup = c01_setup(true, false, false);
         setup.push(txn(CommitMode::OnePhase, data_body('B', 60)));
+        setup.push(mm_subtree_txn());
         setup.push(txn(CommitMode::OnePhase, data_body('F', 61)));
         setup.push(txn(CommitMode::OnePhase, data_body('B', 62)));
         let variants: Vec<(&str, Vec<Op>)> = if quick {
